@@ -33,6 +33,10 @@ FORBIDDEN = re.compile(
     r"std::process::id|core::any::TypeId::of")
 
 
+LAYOUT_OBSERVER = r"VecDeque::<T(, A)?>::as_(mut_)?slices$"
+ITERATION_ONLY = re.compile(r"IntoIterator::into_iter$|::iter$|Iterator::(chain|next|by_ref|rev|for_each|copied|cloned)$")
+
+
 def hash_impls(prog):
     out = []
     for im in prog.impls:
@@ -212,6 +216,20 @@ def c13c(ctx, prog, impls):
         # pointer -> integer casts
         for s in b.assigns(lambda st: st["rv"]["k"] == "cast" and ("PointerExposeProvenance" in st["rv"]["ck"] or "PointerExposeAddress" in st["rv"]["ck"])):
             ctx.fail(o, s, "%s casts a pointer to an integer" % b.name)
+    # layout observers: the two halves of a ring buffer depend on the construction history; their only legitimate use in a
+    # hash is to iterate the elements (no length, emptiness, or slice-level hashing of a half)
+    o3 = ctx.ob("C13.c", "layout-observers-only-iterated", "K5",
+                "the result of a history-dependent layout observer (VecDeque::as_slices) is used only to iterate elements")
+    for b in bodies:
+        for s in b.calls_to(LAYOUT_OBSERVER):
+            o3.sites += 1
+            for kind, site, i in df.forward_uses(b, s):
+                if kind == "arg" and not ITERATION_ONLY.search(site.node["fn"]["path"]):
+                    ctx.touch(b)
+                    ctx.fail(o3, site, "%s hands a half of `%s` to %s: the byte stream then depends on where the ring buffer wraps, not only on the value" % (
+                        b.name, short(s.node["fn"]["path"]), short(site.node["fn"]["path"])))
+                elif kind == "return":
+                    ctx.fail(o3, s, "%s returns a layout-dependent slice" % b.name)
     o.sites = n
     if n < 300:
         ctx.fail(o, "(program)", "only %d call sites examined in StableHash bodies (expected >= 300)" % n)
